@@ -242,8 +242,35 @@ func extractLogLine(p *pkgs, f *facts) {
 			return true
 		})
 	}
-	f.lean = append(f.lean, fmt.Sprintf("def stderrReader : LogLine.ReaderParams := ⟨%s, %s⟩", leanBool(endsOnRead), leanBool(readsFromStart)))
-	f.set("stderrReader", map[string]interface{}{"endsOnlyOnReadError": endsOnRead, "readsFromStart": readsFromStart})
+	// the stderr reader is in pipesWaitGroup: logStderr defers c.pipesWaitGroup.Done() at its top level, and in Start the
+	// statement `go c.logStderr(…)` is preceded (since the previous go statement) by `c.pipesWaitGroup.Add(1)`
+	inGroup := false
+	if ls := p.fn("Client", "logStderr"); ls != nil {
+		doneDeferred := false
+		for _, st := range ls.Body.List {
+			if d, ok := st.(*ast.DeferStmt); ok && exprString(d.Call) == "c.pipesWaitGroup.Done()" {
+				doneDeferred = true
+			}
+		}
+		if st := p.fn("Client", "Start"); st != nil && doneDeferred {
+			added := false
+			for _, s := range st.Body.List {
+				switch v := s.(type) {
+				case *ast.ExprStmt:
+					if exprString(v.X) == "c.pipesWaitGroup.Add(1)" {
+						added = true
+					}
+				case *ast.GoStmt:
+					if strings.HasPrefix(exprString(v.Call), "c.logStderr(") {
+						inGroup = added
+					}
+					added = false
+				}
+			}
+		}
+	}
+	f.lean = append(f.lean, fmt.Sprintf("def stderrReader : LogLine.ReaderParams := ⟨%s, %s, %s⟩", leanBool(endsOnRead), leanBool(readsFromStart), leanBool(inGroup)))
+	f.set("stderrReader", map[string]interface{}{"endsOnlyOnReadError": endsOnRead, "readsFromStart": readsFromStart, "waitedBeforeProcWait": inGroup})
 	f.lean = append(f.lean, fmt.Sprintf("def logline : LogLine.Params := ⟨%s, %d⟩", leanBool(checked), defBuf))
 	f.lean = append(f.lean, fmt.Sprintf("def drain : Scanner.DrainParams := ⟨%d, %s, %s⟩", maxToken, leanBool(drainsLines), leanBool(drainsAfterErr)))
 	f.set("logline", map[string]interface{}{"checkedAssertions": checked, "defaultBuf": defBuf})
